@@ -272,11 +272,13 @@ func C10(r *vf.Run) {
 
 	if r.Phase("histories") {
 		chunks := r.N(64, 2000)
-		vf.Parallel(runtime.NumCPU(), chunks, func(w, ci int) {
+		r.Parallel(runtime.NumCPU(), chunks, func(w, ci int) {
 			g := r.Rand("hist").Fork(uint64(ci))
 			cells := map[string]int64{}
 			for k := 0; k < 400 && !r.TooMany(); k++ {
-				caseFn(g, ci*400+k, cells)
+				if pan := vf.Try(func() { caseFn(g, ci*400+k, cells) }); pan != nil {
+					r.Fail("api-panics", fmt.Sprintf("reader/writer on a bank inside the image panicked: %v", pan), nil)
+				}
 			}
 			r.MergeCells(cells)
 		})
